@@ -48,12 +48,12 @@ def run(chk: Check, repo: Repo) -> None:
             return None
         am = AbsMachine(cfg, exc, cm)
         am.isinstance_fn = class_isinstance(repo)
-        env = {f"{p0}.destination_address": dest, f"{p0}.payload": Obj("GroupValueWrite", "p", (("value", Obj("DPTArray", "raw")),)), f"{p0}.decoded_data": dd, "self.dpt_class": own}
+        env = {f"{p0}.destination_address": dest, f"{p0}.payload": Obj("GroupValueWrite", "p", (("value", Obj("DPTArray", "raw")),)), f"{p0}.decoded_data": dd, "self.dpt_class": own, "self._value": None, "self.after_update_cb": None}
         paths = Explorer(cfg, repo, am.step).run(cfg.entry, [], env)
         used = set()
         for p in paths:
             tr = [t for t in p.env.get("trace", ()) if t.startswith("OWN_DECODE")]
-            v = p.env.get("decoded_payload")
+            v = p.env.get("self._value")  # what ends up stored as the remote value's state (initially None), not a local's name
             used.add(("own" if tr else "eager", repr(v) if not (tr and tr[0].endswith("error")) else "error"))
         want = {("eager", repr(Obj("Value", "eager")))} if label == "same transcoder" else {("own", repr(Obj("Value", "own"))), ("own", "error")}
         chk.ob("shortcut-iff-same-transcoder", proc.site(), used == want, f"decoded_data: {label}: value source {sorted(used)}; reference {sorted(want)}", key=f"process|{label}")
@@ -102,13 +102,13 @@ def run(chk: Check, repo: Repo) -> None:
               n = call_name(c)
               if n == "self.get":
                   return [Outcome(None, tr_obj if configured else None)]
-              if n == "transcoder.from_knx":
+              if isinstance(c.func, ast.Attribute) and c.func.attr == "from_knx" and box["am"].ev(c.func.value, env, {}) == tr_obj:  # the configured transcoder, whatever the local is called
                   arg = ast.unparse(c.args[0]) if c.args else ""
                   return [Outcome(f"DECODE({arg})", Obj("Value", "v"))] if outcome == "ok" else [Outcome(f"DECODE({arg})", Raise("ConversionError"))]
               if n == "TelegramDecodedData":
                   am_ = box["am"]
                   return [Outcome(None, Obj("TelegramDecodedData", "new", tuple((f"arg{i}", am_.ev(a, env, {})) for i, a in enumerate(c.args)) + tuple((k.arg, am_.ev(k.value, env, {})) for k in c.keywords)))]
-              if n.startswith("_GA_DPT_LOGGER") or n == "_logger_fn" or n.endswith(".add") or n.endswith("dpt_name"):
+              if n.startswith("_GA_DPT_LOGGER") or n.endswith(".add") or n.endswith("dpt_name") or (isinstance(c.func, ast.Name) and any(isinstance(a, ast.Assign) and len(a.targets) == 1 and isinstance(a.targets[0], ast.Name) and a.targets[0].id == c.func.id and "LOGGER" in ast.unparse(a.value).upper() for a in ast.walk(sd.node))):
                   return [Outcome(None, None)]
               return None
           box = {}
